@@ -117,6 +117,54 @@ CLAIMED["C10"] = dict(
     note="Trusted: Lean kernel + 3 standard axioms; hand-written L2 model (tie = trace comparison under a serialising scheduler: SC interleavings only); deaths happen between operations only.",
     technique="Lean 4 proof (abstract phase machine + refinement + one inductive invariant over an interleaving semantics) + atomic-step trace correspondence",
     design="DESIGN.md §5 C10")
+CLAIMED["C04"] = dict(
+    level="proof",
+    text="PARTIAL. Lean 4 theorems over the crash-extended interleaving models (`Sys.withCrash`: every thread = process carries a fuse and dies at ANY atomic step, frozen in the middle "
+         "of whatever operation it was in) of the two shared-memory structures every lifecycle operation goes through — RobustUniqueIndexSet and the registry Container: survivors keep "
+         "exclusive ownership; recovery acts only for dead owners, returns exactly their cells and is complete wherever they died; generations/lock monotone; every snapshot entry a "
+         "survivor ever sees was genuinely published (no phantom, no torn entry) and odd generation <=> published for every slot in every reachable state; after recovery the dead owner "
+         "is gone from the registry. One statement (no orphaned cell) is false in locked sets and proved false. The file-system / system-call level of the property (node, service, port "
+         "files; kill at every system call) is NOT covered by theorems.",
+    note="Trusted: Lean kernel + 3 standard axioms; hand-written L2 models + generic crash wrapper (tie = atomic-step traces with a logical thread killed at its k-th step, compared step by "
+         "step); SC interleavings; the model includes the repair af4ba06 of the defect this check found (phantom registry entry after a death inside Container::add).",
+    technique="Lean 4 proof (crash-closed inductive invariants over an interleaving semantics with arbitrary death points) + atomic-step trace correspondence with crash injection",
+    design="DESIGN.md §5 C04")
+CLAIMED["C02"] = dict(
+    level="proof",
+    text="Lean 4 theorems over the L1 publish-subscribe model (every API call atomic; registries, snapshots, zero-copy connections with submission/completion queues and used-chunk "
+         "bits, reference counters, LIFO pool, history, subscriber connection slot-map and expired-connection list) for EVERY reachable state of EVERY configuration: a free chunk is "
+         "referenced by nothing (no unsent loan, no history entry, no undelivered entry or held sample of a live subscriber), so a loan never hands out a referenced chunk; the bytes seen "
+         "through a sample held by a live subscriber never change; the reference counter is exact (loans + history + connection bits) and a chunk is loanable iff it is zero (no leak); "
+         "a connection's used bits are exactly what is in flight on it. The same statement for samples that outlive their subscriber is FALSE (machine-checked history = known finding D16).",
+    note="Trusted: Lean kernel + 3 standard axioms; hand-written L1 model (tie = differential run of the real ports, local and ipc, > 300k calls per run incl. exhaustive short histories "
+         "and saturation histories, loan-exhaustion probe, canary re-read of every held sample); API calls are atomic in the model (concurrency below is C03/C09/C13); u64 payloads, "
+         "one segment; request/response payloads use the same Sender/Receiver code (C11).",
+    technique="Lean 4 proof (global inductive invariant over API histories: topology + reference accounting) + differential correspondence model vs implementation",
+    design="DESIGN.md §5 C02")
+CLAIMED["C01"] = dict(
+    level="proof",
+    text="Lean 4 theorems over the L1 publish-subscribe model, with ghost send numbers, for EVERY reachable state of EVERY configuration and every publisher/subscriber pair: what was "
+         "pushed into a connection is strictly increasing in send order and splits into a consumed prefix (an interleaving of received and overflow-evicted samples) and the pending "
+         "suffix — hence in order, at most once, nothing invented, the buffer always holds the newest delivered samples; eviction only with safe overflow and only from a full buffer, "
+         "skipping only without it (and then the send call does not count the subscriber); every sample sent while connected is delivered or skipped, nothing else is lost; the newest "
+         "min(history request, buffer) history samples come first; pending samples of a live subscriber still carry the payload written for their send number, and `receive` returns it; "
+         "the subscriber's own per-publisher log is the connection's log.",
+    note="Trusted: Lean kernel + 3 standard axioms; hand-written L1 model (tie = differential run of the real ports, local and ipc: exhaustive short histories, random, saturation); "
+         "API calls atomic; DiscardData strategy; u64 payload; ghost fields are written but never read by the transitions.",
+    technique="Lean 4 proof (three-layer inductive invariant: structure, reference accounting / non-reuse, send numbering) + differential correspondence model vs implementation",
+    design="DESIGN.md §5 C01")
+CLAIMED["C20"] = dict(
+    level="proof",
+    text="Lean 4 theorems over an executable model of WaitSet + reactor + deadline queue + listener readiness (transcribed from waitset.rs, reactor/epoll.rs, posix_select.rs, "
+         "deadline_queue.rs) for EVERY reachable state (any capacity, number of listeners and services): one processing call reports exactly the live guards whose object has a pending "
+         "event, every expired interval and every missed deadline — never a dropped guard, never a foreign listener, nothing twice; a pending event persists until drained and is reported "
+         "by the next call; refused attaches (same object twice, beyond capacity) report the documented error and leave the observable state unchanged; detach frees the object for "
+         "re-attachment with a fresh index; len/capacity invariants. Two natural statements are false and proved false with replays on the real code (wrong error when the REACTOR is "
+         "full — reachable only through a capacity test double; a refused attach_deadline leaves a map entry behind — known finding).",
+    note="Trusted: Lean kernel + 3 standard axioms; hand-written model (tie = differential run of the real WaitSet over real epoll and select reactors, exhaustive short histories + random); "
+         "kernel behaviour of epoll/select and real time are outside the model (logical clock, 10 ms units with overrun detection); single-threaded; callback always continues.",
+    technique="Lean 4 proof (inductive invariant reactor list = guards, deadline indices = guards; exact dispatch by case analysis) + differential correspondence model vs implementation",
+    design="DESIGN.md §5 C20, notes/C20-design.md")
 NOT_YET = {}
 
 def main():
@@ -131,7 +179,7 @@ def main():
                 thorough_cmd=f"./check {pid} --tier thorough",
                 evidence_file=f"/verif/evidence/{pid}.json",
                 replay_cmd_template=f"./check {pid} --replay {{path}}",
-                engine="lean+steptrace" if pid in ("C03","C05","C09","C10","C12","C13","C14") else "lean+seqdiff",
+                engine="lean+steptrace" if pid in ("C03","C04","C05","C09","C10","C12","C13","C14") else "lean+seqdiff",
                 level_claimed=dict(category=c["level"], text=c["text"], design_ref=c["design"]),
                 level_note=c["note"],
                 technique=c["technique"]))
